@@ -152,7 +152,13 @@ def sync_check(rng, n, v):
             if r < 0.4:
                 clock.time += rng.choice([1, 2, 5])
             elif r < 0.6:
-                it.queue(Event(rng.choice(['e0', 'e1', 'e2'])))
+                before = sync.time
+                it.queue(Event(rng.choice(['e0', 'e1', 'e2']), **({'delay': rng.choice([1, 3])} if rng.random() < 0.3 else {})))
+                reads += 1
+                # ("the time of the last step": queueing an event is not a step, whatever the clock shows meanwhile)
+                if sync.time != before and bad is None:
+                    bad = ('queue() called while the clock shows %r moved the synchronized clock from %r (the time of the last step) to %r'
+                           % (clock.time, before, sync.time))
             else:
                 cur['now'] = clock.time
                 del seen[:]
